@@ -9,6 +9,7 @@ mod link;
 mod prep;
 mod scan;
 mod writer;
+mod collector;
 
 fn main() {
     let args: Vec<String> = std::env::args().collect();
@@ -41,6 +42,7 @@ fn main() {
             "scan" => scan::run_case(line),
             "rdhrt" => scan::run_rdhrt(line),
             "writer" => writer::run_case(line),
+            "collector" => collector::run_case(line),
             "dispatch" => link::run_dispatch_case(line),
             _ => {
                 eprintln!("unknown stream {stream}");
